@@ -29,7 +29,7 @@ type Rng struct{ *rand.Rand }
 
 func NewRng(seed uint64) *Rng { return &Rng{rand.New(rand.NewPCG(seed, splitmix(seed)))} }
 
-func (r *Rng) Bool() bool         { return r.IntN(2) == 0 }
+func (r *Rng) Bool() bool            { return r.IntN(2) == 0 }
 func (r *Rng) Chance(p float64) bool { return r.Float64() < p }
 func (r *Rng) Range(lo, hi int) int { // inclusive
 	if hi <= lo {
